@@ -143,6 +143,19 @@ def gen(rng: random.Random, tier: str):
             cases.append(mk_case(kind, spec, start, max(md, 0), filt, stop,
                                  tags=("random", kind, "depth>=5" if depth >= 5 else "depth<5",
                                        "fanout>=3" if core.shape_fanout(shape) >= 3 else "fanout<3")))
+    # WIDE and DEEP trees: a parent with 70 children (one of them with a small subtree) and a chain of 120 levels with
+    # side leaves - far beyond the fan-out / depth of the fixtures (bulk paths, name tables, depth counters, recursion)
+    wide_shape = [[] for _ in range(35)] + [[[], [[]]]] + [[] for _ in range(34)]
+    def chain(k):
+        return [] if k == 0 else ([chain(k - 1), []] if k % 30 == 7 else [chain(k - 1)])
+    for shape, tg in ((wide_shape, "wide"), (chain(119), "deep")):
+        spec = spec_from_shape(shape)
+        size = core.shape_size(shape)
+        for kind in KINDS:
+            for start, md in ((0, 0), (0, 2), (0, 60), (size // 2, 0), (size // 2, size // 2 + 3 if tg == "deep" else 3)):
+                filt = None if md == 0 else [i for i in range(size) if i % 3]
+                stop = None if md else [size - 2, size // 3]
+                cases.append(mk_case(kind, spec, start, md, filt, stop, tags=("corpus", tg, kind)))
     # history-built trees: built under host ancestors, depths read, then detached (or left attached)
     for _ in range(300 if tier == "quick" else 3000):
         size = rng.randint(2, 14)
